@@ -721,3 +721,53 @@ func HarnessC05SpecParallel() {
 	verifAssert(sameOutcome(o2, solo2), "goroutine-2-outcome-equals-solo")
 	verifReach("end")
 }
+
+// ---------- R6: no duplicate inherited properties, no circular ancestry ----------
+
+// HarnessC03Ancestry: three definitions A, B, C; each may inherit (allOf [$ref, inline]) from one
+// other definition chosen by the solver and declares one inline property chosen from {p, q}.
+func HarnessC03Ancestry() {
+	names := []string{"A", "B", "C"}
+	parent := [3]int{verifChoose(4) - 1, verifChoose(4) - 1, verifChoose(4) - 1} // -1: no parent
+	prop := [3]string{[]string{"p", "q"}[verifChoose(2)], []string{"p", "q"}[verifChoose(2)], []string{"p", "q", "r"}[verifChoose(3)]}
+	sw := &spec.Swagger{}
+	sw.Definitions = spec.Definitions{}
+	for i, n := range names {
+		own := spec.Schema{}
+		own.Properties = map[string]spec.Schema{prop[i]: {}}
+		if parent[i] < 0 {
+			sw.Definitions[n] = own
+			continue
+		}
+		d := spec.Schema{}
+		d.AllOf = []spec.Schema{*spec.RefSchema("#/definitions/" + names[parent[i]]), own}
+		sw.Definitions[n] = d
+	}
+	// oracle: walk the ancestry of every definition that inherits
+	ok := true
+	for i := range names {
+		if parent[i] < 0 {
+			continue
+		}
+		seen := map[int]bool{i: true}
+		props := map[string]bool{prop[i]: true}
+		for j := parent[i]; j >= 0; j = parent[j] {
+			if seen[j] {
+				ok = false // circular ancestry
+				break
+			}
+			seen[j] = true
+			if props[prop[j]] {
+				ok = false // a property already declared by a descendant / ancestor
+			}
+			props[prop[j]] = true
+		}
+	}
+	s := newSpecHarnessValidator(sw, nil, true, true)
+	verifPermMaps(true)
+	got := outcomeOfResult(s.validateDuplicatePropertyNames())
+	verifPermMaps(false)
+	verifObserve("valid", got.valid)
+	verifAssert(got.valid == ok, "no-duplicate-inherited-properties-and-no-circular-ancestry")
+	verifReach("end")
+}
